@@ -73,6 +73,8 @@ struct State {
     clock: u64,
     /// Complete requests at submission (used while opening / for uninteresting phases).
     auto: bool,
+    /// Called (outside the state lock) after a request was queued as pending (thread engine: unpark the runtime thread).
+    submit_hook: Option<Arc<dyn Fn() + Send + Sync>>,
 }
 
 #[derive(Clone, Default)]
@@ -109,6 +111,10 @@ impl SimIo {
 
     pub fn set_auto(&self, auto: bool) {
         self.st.lock().unwrap().auto = auto;
+    }
+
+    pub fn set_submit_hook(&self, hook: Option<Arc<dyn Fn() + Send + Sync>>) {
+        self.st.lock().unwrap().submit_hook = hook;
     }
 
     pub fn set_clock(&self, t: u64) {
@@ -200,7 +206,7 @@ impl SimIo {
             result: None,
             waker: None,
         }));
-        let (id, auto) = {
+        let (id, auto, hook) = {
             let mut st = self.st.lock().unwrap();
             let id = st.log.len();
             let clock = st.clock;
@@ -221,10 +227,12 @@ impl SimIo {
                 ptr,
                 slot: slot.clone(),
             });
-            (id, st.auto)
+            (id, st.auto, st.submit_hook.clone())
         };
         if auto {
             self.complete(id);
+        } else if let Some(h) = hook {
+            h();
         }
         SimIoFuture {
             io: self.clone(),
